@@ -1,6 +1,6 @@
-From AV Require Import Lib.Base Lib.Utf8Valid Generated.WsGen Generated.WsCodecGen Model.Ws Model.WsCodec Model.WsSend.
+From AV Require Import Lib.Base Lib.Utf8Valid Generated.WsGen Generated.WsCodecGen Model.Ws Model.WsCodec Model.WsSend Model.WsQueue.
 Require Extraction.
 Require Import ExtrOcamlBasic.
 
 Extraction "model.ml" keep toy_roundtrip toy_wrun toy_feed_all toy_reader0 cut op_wf safe_overrides all_fit peer_cfg
-  expect_all encode_header write_frame toy_comp toy_decomp2 toy_cinit xor_mask toy_crun_trace.
+  expect_all encode_header write_frame toy_comp toy_decomp2 toy_cinit xor_mask toy_crun_trace toy_frun_trace qrun_trace qinit.
